@@ -219,9 +219,135 @@ def capacity_cases(rng, hist_init):
 
 
 # ---------------------------------------------------------------------------------------------
+# LARGE histories at the line-buffer interface: operation lists that log 100..5000 entries (steps of 1..1500 entries between two
+# command boundaries), then COMPLETE undo and redo walks.  The buffer stays small (2..8 short lines) and every inserted line is a
+# fresh token, so that every text of the history differs from every other one and the answers stay short.  Totals are aimed at
+# the growth points of hist[] (HIST_INIT * 2^k and +-1) and at typical cap values (1000, 1024, 2000, 2048, 4096): an implementation
+# that silently forgets, merges or splits old entries once the log is long cannot bring every earlier text back.
+
+B36 = '0123456789abcdefghijklmnopqrstuvwxyz'
+
+
+def tok36(n):
+    s = ''
+    while True:
+        s = B36[n % 36] + s
+        n //= 36
+        if not n:
+            return s.encode()
+
+
+def big_totals(hist_init, top):
+    pts = set()
+    k = hist_init
+    while k <= top:
+        pts.update([k - 1, k, k + 1])
+        k *= 2
+    for c in (1000, 2000, 3000, 5000):
+        if c <= top:
+            pts.update([c, c + 1])
+    return sorted(p for p in pts if p >= 100)
+
+
+def big_steps(rng, total, profile):
+    """sizes of the steps (entries logged between two command boundaries), summing to `total`"""
+    if profile == 'one':                      # one compound command (`:%s` over `total` lines), maybe small ones around it
+        pre = [rng.range(1, 3) for _ in range(rng.below(3))]
+        post = [rng.range(1, 3) for _ in range(rng.below(3))]
+        big = total - sum(pre) - sum(post)
+        return pre + [big] + post if big > 0 else [total]
+    if profile == 'equal':                    # k equal compound commands (`:%s` k times on the same file)
+        k = rng.choice([2, 3, 3, 4, 5])
+        m = max(1, total // k)
+        sizes = [m] * k
+        sizes[-1] += total - m * k
+        return [s for s in sizes if s > 0]
+    sizes, left = [], total
+    while left > 0:
+        if profile == 'small':                # ordinary editing: one or two entries per command
+            s = rng.choice([1, 1, 1, 2, 3])
+        else:                                 # 'mixed': compound steps of 1..1500 entries
+            s = rng.choice([1, 1, 2, 5, 17, 50, 128, 129, 300, 700, 1024, 1500])
+        s = min(s, left)
+        sizes.append(s)
+        left -= s
+    return sizes
+
+
+def big_case(rng, total, profile, hist_init):
+    nl0 = rng.range(2, 5)
+    init = b''.join(b'%c\n' % (65 + i) for i in range(nl0))
+    nl = nl0
+    ctr = [0]
+    ops = []
+
+    def edit():
+        nonlocal nl
+        ctr[0] += 1
+        t = tok36(ctr[0]) + b'\n'
+        k = rng.below(10)
+        if k < 6 or (k < 8 and nl >= 8) or (k >= 8 and nl <= 2):
+            p = rng.below(nl)
+            ops.append(E(p, p + 1, t))          # replace one line (what :s, >>, ~ do per line)
+        elif k < 8:
+            p = rng.below(nl + 1)
+            ops.append(E(p, p, t))              # insert a line
+            nl += 1
+        else:
+            p = rng.below(nl)
+            ops.append(E(p, p + 1, None))       # delete a line
+            nl -= 1
+
+    sizes = big_steps(rng, total, profile)
+    for s in sizes:
+        for _ in range(s):
+            edit()
+        ops.append('M')
+    ns = len(sizes)
+    bump = rng.chance(1, 2)                     # the editor calls lbuf_modified after every u / redo as well
+
+    def walk(op, n):
+        for _ in range(n):
+            ops.append(op)
+            if bump:
+                ops.append('M')
+    walk('U', ns + 1)                           # all the way down; the last one must fail on the loaded text
+    walk('R', ns + 1)                           # all the way up; the last one must fail
+    j = rng.range(1, ns)
+    walk('U', j)
+    if rng.chance(1, 2):
+        walk('R', rng.range(0, j))
+    else:
+        for _ in range(rng.choice([1, 2, 40])):   # a new command after an undo: the redo branch goes
+            edit()
+        ops.append('M')
+        walk('R', 1)
+    walk('U', ns + 2)                           # down to the loaded text again, and beyond
+    return (init, ops), {'entries': total, 'steps': ns, 'largest_step': max(sizes), 'profile': profile, 'ops': len(ops)}
+
+
+def big_cases(rng, hist_init, quick):
+    top = 5000 if quick else 12000
+    totals = big_totals(hist_init, top)
+    cases = []
+    for k, t in enumerate(totals):
+        profs = ['mixed', rng.choice(['one', 'equal', 'small'])] if quick else ['mixed', 'one', 'equal', 'small']
+        if quick and t >= 4000:
+            profs = [profs[k % 2]]            # the extracted model is quadratic in the length of the log: one list per total up there
+        for prof in profs:
+            if prof == 'small' and t > 2100 and quick:
+                prof = 'equal'
+            cases.append(big_case(rng, t, prof, hist_init))
+    for _ in range(8 if quick else 60):
+        t = rng.range(100, top)
+        cases.append(big_case(rng, t, rng.choice(['mixed', 'mixed', 'one', 'equal', 'small'] if t <= 2100 else ['mixed', 'one', 'equal']), hist_init))
+    return cases
+
+
+# ---------------------------------------------------------------------------------------------
 # end to end: ex scripts
 
-WORDS = ['ax', 'bxx', 'cab', 'dxa', 'eee', 'fax', 'gag', 'hxh']
+WORDS =['ax', 'bxx', 'cab', 'dxa', 'eee', 'fax', 'gag', 'hxh']
 
 
 def ex_script(rng, ncmd):
@@ -422,6 +548,141 @@ def run_vi_case(exe, init, cmds, timeout=20):
         return ('incomplete', b'')
     bad = stack_oracle([k for k, _ in cmds], texts)
     return ('bad', bad, texts) if bad else ('ok', texts)
+
+
+# ---------------------------------------------------------------------------------------------
+# end to end, LARGE histories: files of 129 .. 2600 lines (every line carries its identity `L<i>`), two to four compound commands
+# that log one entry (or two) per line -- `:%s`, `:g` / `:v` with one or two commands, a range `s`, counted `>>` / `<<` / `.` in vi --
+# then u all the way down to the file as loaded (and once more: must fail), redo all the way up (and once more), a partial walk
+# and sometimes a new command that cuts the redo branch.  The text is read back after EVERY step; oracle = the undo stack on the
+# observed texts; the report names the lines (by identity) that are wrong.
+
+BIG_NL = [129, 513, 1100, 2100, 2600]
+
+
+def big_file(nl, variant):
+    ws = WORDS
+    return ''.join('L%d %s\n' % (i, ws[(i * 7 + variant) % len(ws)]) for i in range(1, nl + 1)).encode()
+
+
+def big_nl(rng):
+    r = rng.below(10)
+    if r < 7:
+        return rng.choice(BIG_NL) + rng.choice([0, 0, 0, -1, 1])
+    if r < 9:
+        return rng.choice([257, 700, 1025, 2049, 1366, 342])
+    return rng.range(100, 2700)
+
+
+def big_ex_case(rng):
+    nl, variant = big_nl(rng), rng.below(8)
+    uniq = [0]
+
+    def one():
+        uniq[0] += 1
+        n = uniq[0]
+        k = rng.below(12)
+        if k < 3:
+            return '%%s/^/P%d/' % n
+        if k < 5:
+            return '%%s/$/ Q%d/' % n
+        if k == 5:
+            a = rng.range(1, max(1, nl // 3))
+            return '%d,%ds/^/R%d/' % (a, rng.range(nl - nl // 3, nl), n)
+        if k < 8:
+            return 'g/%s/s/$/ G%d/' % (rng.choice(['.', 'x', 'a', '^L[0-9]*[13579] ', '[05] ']), n)
+        if k == 8:
+            return 'g/./s/^/a%d/|s/$/ b%d/' % (n, n)
+        if k == 9:
+            return 'v/%s/s/^/V%d/' % (rng.choice(['^L[0-9]*0 ', 'xx', 'gag']), n)
+        if k == 10:
+            return '%%s/ / W%d /' % n
+        return rng.choice(['1s/^/S%d/' % n, '$s/$/ T%d/' % n, '2d', '$-1d'])      # an ordinary one-entry command in between
+    cmds = [('m', one()) for _ in range(rng.choice([2, 3, 3, 4]))]
+    ns = len(cmds)
+    walk = [('u', 'u')] * (ns + 1) + [('r', 'redo')] * (ns + 1)
+    j = rng.range(1, ns)
+    walk += [('u', 'u')] * j
+    if rng.chance(1, 2):
+        walk += [('m', one()), ('r', 'redo')]
+    else:
+        walk += [('r', 'redo')] * rng.range(0, j)
+    walk += [('u', 'u')] * (ns + 2)
+    return {'kind': 'bigex', 'nl': nl, 'variant': variant, 'cmds': [list(c) for c in cmds + walk]}
+
+
+def big_vi_case(rng):
+    nl, variant = big_nl(rng), rng.below(8)
+    uniq = [0]
+
+    def one(first):
+        uniq[0] += 1
+        n = uniq[0]
+        cnt = rng.choice([nl, nl, nl - 1, nl // 2 + 1, nl + 5])
+        k = rng.below(10)
+        if k < 4 or first:
+            return '1G%d>>' % cnt
+        if k < 6:
+            return '1G%d<<' % cnt
+        if k == 6:
+            return '1G.'                      # repeats the previous command with its count
+        if k == 7:
+            return ':%%s/^/P%d/\n' % n
+        if k == 8:
+            return ':g/./s/$/ G%d/\n' % n
+        return rng.choice(['Gx', '1GA e%d\x1b' % n, '2Gdd'])
+    cmds = [('m', one(i == 0)) for i in range(rng.choice([2, 3, 3, 4]))]
+    ns = len(cmds)
+    walk = [('u', 'u')] * (ns + 1) + [('r', '\x12')] * (ns + 1)
+    j = rng.range(1, ns)
+    walk += [('u', 'u')] * j + [('r', '\x12')] * rng.range(0, j) + [('u', 'u')] * (ns + 2)
+    return {'kind': 'bigvi', 'nl': nl, 'variant': variant, 'pre': rng.choice(['', ':se noru\n']), 'cmds': [list(c) for c in cmds + walk]}
+
+
+def ident_diff(want, got):
+    """which lines (by their identity L<i>) differ between two texts; a short description"""
+    def index(t):
+        d = {}
+        for ln in t.split(b'\n'):
+            m = re.search(rb'L(\d+) ', ln)
+            key = m.group(1) if m else ln
+            d.setdefault(key, []).append(ln)
+        return d
+    a, b = index(want), index(got)
+    wrong = [k for k in a if a[k] != b.get(k)] + [k for k in b if k not in a]
+    ex = []
+    for k in wrong[:3]:
+        ex.append('line %s: expected %r, observed %r' % (k.decode('latin-1'), b' / '.join(a.get(k, [b'(absent)'])), b' / '.join(b.get(k, [b'(absent)']))))
+    first = wrong[0].decode('latin-1') if wrong else '-'
+    last = wrong[-1].decode('latin-1') if wrong else '-'
+    return '%d of %d lines wrong (identities %s .. %s); %s' % (len(wrong), want.count(b'\n'), first, last, '; '.join(ex))
+
+
+def run_big_case(exe, case, timeout=30):
+    init = big_file(case['nl'], case['variant'])
+    cmds = [tuple(c) for c in case['cmds']]
+    if case['kind'] == 'bigex':
+        r = run_ex_case(exe, init, cmds, timeout)
+    else:
+        pre = case.get('pre', '')
+        r = run_vi_case(exe, init, ([('m', pre)] if pre else []) + cmds, timeout)
+        if pre and r[0] == 'bad':
+            r = ('bad', (r[1][0] - 1,) + tuple(r[1][1:]), r[2][1:])
+        elif pre and r[0] == 'ok':
+            r = ('ok', r[1][1:])
+    return r
+
+
+def big_changed(case, texts):
+    """number of modifying commands of the build phase that changed at least 100 lines (a compound step)"""
+    n = 0
+    for i, (k, c) in enumerate(case['cmds']):
+        if k != 'm':
+            break
+        a, b = texts[i].split(b'\n'), texts[i + 1].split(b'\n')
+        if len(a) == len(b) and sum(1 for x, y in zip(a, b) if x != y) >= 100:
+            n += 1
+    return n
 
 
 FAIL_TAILS = ['/nosuchtext/', '99p', "'zp", 's/nomatchhere/x/', 'w /nonexistent-dir/x', '?nosuchtext?', '99,100d', 'e /nonexistent-dir/y|', 'unknowncmd']
@@ -969,6 +1230,14 @@ def bufs_describe(case):
 
 def run(ctx):
     res, rng = ctx.res, ctx.rng
+    import time as _time
+    _t0 = [_time.time()]
+    res.extra['phase_wall_s'] = {}
+
+    def phase(name):
+        now = _time.time()
+        res.extra['phase_wall_s'][name] = round(now - _t0[0], 1)
+        _t0[0] = now
     probe = vlib.build_probe('undo', includes=['lbuf'])
     probe_asan = vlib.build_probe('undo', includes=['lbuf'], asan=True)
     model = ctx.model('undo')
@@ -1006,9 +1275,14 @@ def run(ctx):
         small = vlib.shrink(ops, lbuf_fails(init))
         rc, out, err = run_exe(probe, [hx(init) + ' ' + ' '.join(small)])
         b2 = oracle_seq(init, small, out[0].split(' ') if out and out[0] else []) or bad
-        res.violation({'what': 'lbuf interface, operation %d (%s): %s' % (b2[0] + 1, small[b2[0]] if b2[0] < len(small) else '?', b2[1]),
-                       'input': {'kind': 'lbuf', 'init': hx(init), 'ops': small},
-                       'expected': repr(b2[2]), 'observed': repr(b2[3]), 'answers': out[0] if out else ''})
+        v = {'what': 'lbuf interface, operation %d (%s): %s' % (b2[0] + 1, small[b2[0]] if b2[0] < len(small) else '?', b2[1]),
+             'input': {'kind': 'lbuf', 'init': hx(init), 'ops': small},
+             'expected': repr(b2[2]), 'observed': repr(b2[3]), 'answers': (out[0] if out else '')[:20000]}
+        if len(small) > 100:
+            upto = small[:b2[0] + 1]
+            v['what'] += ' [long history: %d edit calls, %d command boundaries, %d undos, %d redos up to and including the failing operation]' % (
+                sum(1 for o in upto if o[0] == 'E'), upto.count('M'), upto.count('U'), upto.count('R'))
+        res.violation(v)
 
     def report_crash(exe, c):
         init, ops = c['case']
@@ -1054,9 +1328,42 @@ def run(ctx):
                        'expected': repr(bad[2]), 'observed': repr(bad[3]),
                        'texts_per_buffer_after_every_line_that_changed_it': {'f%d' % x: [t.decode('latin-1') for t in h] for x, h in info['H'].items()}})
 
+    def report_big(case, r, shrink=True):
+        small = dict(case)
+        if shrink:
+            def bad(c):
+                return run_big_case(vi, c)[0] == 'bad'
+            cm = vlib.shrink(case['cmds'], lambda sub: bad(dict(case, cmds=sub)), max_steps=80)
+            small = dict(case, cmds=cm)
+            for nl in sorted(set(BIG_NL + [case['nl']])):            # the smallest file of the series that still fails
+                if nl < case['nl'] and bad(dict(small, nl=nl)):
+                    small['nl'] = nl
+                    break
+            r2 = run_big_case(vi, small)
+            if r2[0] == 'bad':
+                r = r2
+            else:
+                small = dict(case)
+        bad_, texts = r[1], r[2]
+        cmds = small['cmds']
+        exp = bad_[2][0] if bad_[2] else b''
+        res.violation({'what': '%s, file of %d lines, step %d (%r) of %s: %s -- %s' % (
+                           'ex' if small['kind'] == 'bigex' else 'vi', small['nl'], bad_[0] + 1, cmds[bad_[0]][1],
+                           ' / '.join(repr(c[1]) for c in cmds[:bad_[0] + 1])[:400], bad_[1], ident_diff(exp, bad_[3])[:700]),
+                       'input': small, 'expected': 'the text observed before the command being undone / after the command being redone (%d lines)' % exp.count(b'\n'),
+                       'observed': ident_diff(exp, bad_[3])[:1500],
+                       'lines_changed_by_each_step': [sum(1 for x, y in zip(texts[i].split(b'\n'), texts[i + 1].split(b'\n')) if x != y) for i in range(len(texts) - 1)]})
+
     def run_input(inp):
         if inp.get('kind') == 'lbuf':
             one_lbuf(vlib.unhx(inp['init']), list(inp['ops']), 'replay')
+        elif inp.get('kind') in ('bigex', 'bigvi'):
+            r = run_big_case(vi, inp)
+            res.evaluations += 1
+            if r[0] == 'bad':
+                report_big(inp, r, False)
+            elif r[0] == 'crash':
+                res.violation({'what': '%s, large history: %s' % (inp['kind'], r[1]), 'input': inp})
         elif inp.get('kind') == 'ex2':
             # a fixed script over several files; the final text of the current buffer is given
             script = ('\n'.join(inp['script']) + '\nec @@1@@\n%p\nec @@-@@\nq!\n').encode()
@@ -1075,6 +1382,12 @@ def run(ctx):
                 report_bufs(inp, r, False)
             elif r[0] == 'crash':
                 res.violation({'what': 'ex, several buffers: ' + r[1], 'input': inp})
+        elif inp.get('kind') == 'bigwalk':
+            r = run_ex_walk(vi, big_file(inp['nl'], inp['variant']), [tuple(c) for c in inp['cmds']], inp['undos'], inp['redos'], timeout=30)
+            res.evaluations += 1
+            if r[0] == 'bad':
+                res.violation({'what': 'ex, file of %d lines: %s -- %s' % (inp['nl'], r[1][1], ident_diff(r[1][2][0], r[1][3] or b'')[:700]), 'input': inp,
+                               'expected': 'the text observed after that line in a run that prints the text after every line', 'observed': ident_diff(r[1][2][0], r[1][3] or b'')[:1500]})
         elif inp.get('kind') == 'exwalk':
             r = run_ex_walk(vi, inp['file'].encode('latin-1'), [tuple(c) for c in inp['cmds']], inp['undos'], inp['redos'])
             res.evaluations += 1
@@ -1104,6 +1417,7 @@ def run(ctx):
         run_input(json.load(open(fn)).get('input', {}))
         res.count('corpus cases')
 
+    phase('build + corpus')
     # ---- line-buffer level: exhaustive small scope, random, capacity
     cases = []
     for init in INITS:
@@ -1125,12 +1439,32 @@ def run(ctx):
         hist_init = 128
     ccases = capacity_cases(rng, hist_init)
     res.count('lbuf capacity lists', len(ccases))
+    # large histories: 100..5000 (thorough: 12000) logged entries, complete undo/redo walks.  `bigm` goes through probe AND
+    # model (the extracted model is quadratic in the length of the log: about 3 s for 5000 entries), `bigp` (more lists,
+    # longer logs, up to the next growth point of hist[]) through the probe and the stack oracle only.
+    r8 = rng.fork('lbuf-big')
+    bigm = big_cases(r8, hist_init, ctx.quick)
+    bigp = []
+    for _ in range(240 if ctx.quick else 3000):
+        t = r8.choice([r8.range(100, 2100), r8.range(1000, 5000), r8.range(2000, 9000), r8.choice(big_totals(hist_init, 9000 if ctx.quick else 40000))])
+        bigp.append(big_case(r8, t, r8.choice(['mixed', 'mixed', 'one', 'equal', 'small'] if t <= 3000 else ['mixed', 'one', 'equal']), hist_init))
+    res.count('lbuf large-history lists (probe + model + oracle)', len(bigm))
+    res.count('lbuf large-history lists (probe + oracle)', len(bigp))
+    for _c, info in bigm + bigp:
+        res.count('lbuf large-history lists: %s entries logged' % ('100-1023' if info['entries'] < 1024 else '1024-2047' if info['entries'] < 2048 else '2048-4095' if info['entries'] < 4096 else '4096 and more'))
+        if info['largest_step'] >= 128:
+            res.count('lbuf large-history lists with a step of 128 or more entries')
+    res.extra['lbuf_large_history'] = {'entries_max': max(i['entries'] for _c, i in bigm + bigp), 'largest_step_max': max(i['largest_step'] for _c, i in bigm + bigp),
+                                       'steps_max': max(i['steps'] for _c, i in bigm + bigp), 'totals_aimed_at': big_totals(hist_init, 5000 if ctx.quick else 12000)}
     allc = cases + rcases + ccases
     nchunk = max(16, len(allc) // 40000)
     size = (len(allc) + nchunk - 1) // nchunk
-    jobs = [(probe, model, allc[i:i + size]) for i in range(0, len(allc), size)]
-    # the sanitized build runs the random and the capacity lists (memory errors of the log show up there)
-    asan_cases = rcases[:1500 if ctx.quick else 20000] + ccases
+    # the long model runs first so that they overlap with everything else
+    jobs = [(probe, model, [c]) for c, info in sorted(bigm, key=lambda ci: -ci[1]['entries'])]
+    jobs += [(probe, model, allc[i:i + size]) for i in range(0, len(allc), size)]
+    jobs += [(probe, None, [c for c, _i in bigp[i:i + 20]]) for i in range(0, len(bigp), 20)]
+    # the sanitized build runs the random and the capacity lists (memory errors of the log show up there) and some of the large histories
+    asan_cases = rcases[:1500 if ctx.quick else 20000] + ccases + [c for c, _i in bigm[::4]] + [c for c, _i in bigp[::8]]
     jobs.append((probe_asan, None, asan_cases))
     with ProcessPoolExecutor(max_workers=16) as ex:
         outs = list(ex.map(chunk_worker, jobs))
@@ -1151,10 +1485,13 @@ def run(ctx):
     for init, ops in (rcases + ccases + cases)[:200000]:
         if 'U' in ops and 'R' in ops:
             res.nontriv(hx(init) + ' ' + ' '.join(ops))
+    for (init, ops), info in bigm + bigp:
+        res.nontriv('big %s %d %d' % (info['profile'], info['entries'], __import__('zlib').crc32(' '.join(ops).encode())))
     res.extra['lbuf_lists_with_undo_and_redo'] = sum(o['ntv'] for o in outs[:-1])
     for init, ops in (rcases[:2] + cases[5000:5002]):
         res.sample({'kind': 'lbuf', 'init': hx(init), 'ops': ' '.join(ops)})
 
+    phase('lbuf level (exhaustive, random, capacity, large histories)')
     # ---- end to end
     nex = 160 if ctx.quick else 4000
     nvi = 60 if ctx.quick else 1500
@@ -1179,6 +1516,59 @@ def run(ctx):
             res.violation({'what': 'ex: ' + r[1][1], 'input': inp, 'expected': repr(r[1][2]), 'observed': repr(r[1][3]), 'texts': [t.decode('latin-1') for t in r[2]]})
         elif r[0] == 'crash':
             res.violation({'what': 'ex: ' + r[1], 'input': inp})
+    phase('ex scripts, vi key streams, ex walks')
+    # ---- large histories end to end: compound commands over files of 129 .. 2600 lines, complete undo / redo walks
+    r9 = rng.fork('big-e2e')
+    bigs = [big_ex_case(r9) for _ in range(90 if ctx.quick else 1500)] + [big_vi_case(r9) for _ in range(50 if ctx.quick else 800)]
+    # every file size of the series at least once with the plain shape: `:%s` two or three times, u down, redo up
+    for nl in BIG_NL:
+        k = r9.choice([2, 3])
+        bigs.append({'kind': 'bigex', 'nl': nl, 'variant': 0,
+                     'cmds': [['m', '%%s/^/%c/' % (97 + i)] for i in range(k)] + [['u', 'u']] * (k + 1) + [['r', 'redo']] * (k + 1)})
+        bigs.append({'kind': 'bigvi', 'nl': nl, 'variant': 0, 'pre': ':se noru\n',
+                     'cmds': [['m', '1G%d>>' % nl]] * k + [['u', 'u']] * (k + 1) + [['r', '\x12']] * (k + 1)})
+    gouts = vlib.pmap(lambda c: run_big_case(vi, c), bigs)
+    nrep = 0
+    for c, r in zip(bigs, gouts):
+        res.evaluations += 1
+        kind = 'ex' if c['kind'] == 'bigex' else 'vi'
+        res.count(kind + ' large-history walks' + ('' if r[0] in ('ok', 'bad') else ' (%s)' % r[0]))
+        if r[0] == 'ok':
+            nc = big_changed(c, r[1])
+            if nc >= 2:
+                res.nontriv(repr(c))
+                res.count(kind + ' large-history walks with two or more commands that changed 100 lines or more each')
+            nm = sum(1 for k_, _c in c['cmds'] if k_ == 'm')
+            tot = sum(sum(1 for x, y in zip(r[1][i].split(b'\n'), r[1][i + 1].split(b'\n')) if x != y) for i, (k_, _c) in enumerate(c['cmds']) if k_ == 'm')
+            res.count(kind + ' large-history walks: %s lines changed by the modifying commands in total' % ('under 1024' if tot < 1024 else '1024-2047' if tot < 2048 else '2048-4095' if tot < 4096 else '4096 and more'))
+        elif r[0] == 'bad':
+            if nrep < 2:
+                nrep += 1
+                report_big(c, r)
+        elif r[0] == 'crash':
+            res.violation({'what': '%s, large history: %s' % (kind, r[1]), 'input': c})
+    res.sample({k_: (v if k_ != 'cmds' else [x[1] for x in v]) for k_, v in bigs[0].items()})
+    # blind variant: the commands, the undos and the redos with no other command line in between
+    bw = []
+    for _ in range(40 if ctx.quick else 600):
+        c = big_ex_case(r9)
+        cm = [tuple(x) for x in c['cmds'] if x[0] == 'm'][:r9.choice([2, 3, 4])]
+        j = r9.choice([len(cm), len(cm), r9.range(1, len(cm))])
+        bw.append((big_file(c['nl'], c['variant']), cm, j, r9.range(0, j), c))
+    bwo = vlib.pmap(lambda w: run_ex_walk(vi, w[0], w[1], w[2], w[3], timeout=30), bw)
+    for (init, cm, j, i, c), r in zip(bw, bwo):
+        res.evaluations += 1
+        res.count('ex large-history walks without intervening command lines' + ('' if r[0] in ('ok', 'bad') else ' (%s)' % r[0]))
+        if r[0] == 'ok':
+            res.nontriv('bigwalk' + repr((c['nl'], c['variant'], cm, j, i)))
+        elif r[0] == 'bad' and sum(1 for v in res.violations if 'nothing in between' in v.get('what', '') and 'file of' in v.get('what', '')) < 1:
+            want, got = r[1][2][0], r[1][3] or b''
+            res.violation({'what': 'ex, file of %d lines: %s -- %s' % (c['nl'], r[1][1], ident_diff(want, got)[:700]),
+                           'input': {'kind': 'bigwalk', 'nl': c['nl'], 'variant': c['variant'], 'cmds': [list(x) for x in cm], 'undos': j, 'redos': i},
+                           'expected': 'the text observed after line %d in a run that prints the text after every line' % (len(cm) - j + i), 'observed': ident_diff(want, got)[:1500]})
+        elif r[0] == 'crash':
+            res.violation({'what': 'ex, large history: ' + r[1], 'input': {'kind': 'bigwalk', 'nl': c['nl'], 'variant': c['variant'], 'cmds': [list(x) for x in cm], 'undos': j, 'redos': i}})
+    phase('large histories end to end')
     # ---- several buffers: command lines that edit and switch, then undo/redo walks in every buffer
     r7 = rng.fork('exbufs')
     nbc = 240 if ctx.quick else 6000
@@ -1231,6 +1621,7 @@ def run(ctx):
                                           'input': c, 'script': bufs_describe(c)})
     if bcases:
         res.sample({'kind': 'exbufs', 'script': bufs_describe(bcases[0])})
+    phase('several buffers')
     r5 = rng.fork('viwalk')
     walks = [vi_walk(r5) for _ in range(nvi)]
     wouts = vlib.pmap(lambda c: run_vi_walk(vi, *c), walks)
@@ -1266,3 +1657,4 @@ def run(ctx):
         res.extra[kind + '_scripts_where_undo_and_redo_changed_the_text'] = nch
         if cs:
             res.sample({'kind': kind, 'file': cs[0][0].decode('latin-1'), 'cmds': [c for _, c in cs[0][1]]})
+    phase('vi walks + reports')
